@@ -269,3 +269,26 @@ Lemma array_dimensions_exact a : (ka_len a < 65536)%N -> (ka_size a < 65536)%N -
   api_dims true a = ((if ka_has_len a then Z.of_N (ka_len a) else -1),
                      (if ka_has_size a && negb (ka_has_len a) then Z.of_N (ka_size a) else -1)).
 Proof. intros Hl Hs. rewrite array_dimensions, !N.mod_small by assumption. reflexivity. Qed.
+
+(* ---- a type blob is told from a basic type stored in place by the first 24 bits of the word (SimpleTypeBlob: a union of the
+   flags and the offset; positions of reserved and reserved2 from the regenerated layout) *)
+Definition word_field (o : Z) (f : N * N) : Z := (o / 2 ^ Z.of_N (fst f)) mod 2 ^ Z.of_N (snd f).
+
+Lemma complex_types_recognised : forall o, 0 < o < 2 ^ 24 ->
+  acc_type_is_inline (word_field o SimpleTypeBlobFlags__reserved) (word_field o SimpleTypeBlobFlags__reserved2) = false.
+Proof.
+  intros o Ho. unfold acc_type_is_inline, word_field, SimpleTypeBlobFlags__reserved, SimpleTypeBlobFlags__reserved2.
+  cbn [fst snd Z.of_N]. change (2 ^ 0) with 1. change (2 ^ 8) with 256. change (2 ^ 16) with 65536. change (2 ^ 24) with 16777216 in Ho.
+  rewrite Z.div_1_r.
+  destruct (Z.eqb_spec (o mod 256) 0) as [E1|E1]; [|reflexivity].
+  destruct (Z.eqb_spec ((o / 256) mod 65536) 0) as [E2|E2]; [|reflexivity].
+  exfalso.
+  pose proof (Z.div_mod o 256 ltac:(lia)) as D1. pose proof (Z.div_mod (o / 256) 65536 ltac:(lia)) as D2.
+  rewrite E1 in D1. rewrite E2 in D2.
+  assert (0 <= o / 256 / 65536) by (apply Z.div_pos; [apply Z.div_pos|]; lia).
+  nia.
+Qed.
+
+Lemma inline_misread_at_16MiB :
+  acc_type_is_inline (word_field (2 ^ 24) SimpleTypeBlobFlags__reserved) (word_field (2 ^ 24) SimpleTypeBlobFlags__reserved2) = true.
+Proof. vm_compute. reflexivity. Qed.
